@@ -104,12 +104,13 @@ impl Abs {
             memptr: rng.u16(),
         }
     }
-    /// Random state. SP is kept inside RAM with both bytes below it in RAM (0x4002..=0xFFFF), IFF1 ==
+    /// Random state. SP is kept where both bytes below it are RAM (0x4002..=0xFFFF and 0x0000), IFF1 ==
     /// IFF2, not halted, no EI pending (so the state is expressible in every format).
     pub fn random(rng: &mut Rng, is128: bool) -> Abs {
         let mut r = Abs::random_regs(rng);
         r.sp = match rng.below(8) {
-            0 => *rng.pick(&[0x4002u16, 0x4003, 0x8000, 0x8001, 0xC000, 0xC001, 0xFFFF, 0xFFFE, 0x5B00]),
+            // SP = 0x0000 is in the domain as well: the two bytes below it are 0xFFFE/0xFFFF (RAM)
+            0 => *rng.pick(&[0x4002u16, 0x4003, 0x8000, 0x8001, 0xC000, 0xC001, 0xFFFF, 0xFFFE, 0x5B00, 0x0000, 0x0000]),
             _ => 0x4002 + rng.below(0x10000 - 0x4002) as u16,
         };
         let n = if is128 { 8 } else { 3 };
